@@ -849,6 +849,38 @@ func c02RtspJoin(c *fw.Ctx, k int) {
 			}
 			return false
 		}()])
+		// the key frame a joiner starts with is the first one that begins after its PLAY completed - other
+		// clients of the stream (some of them set up and not playing yet) have no say in that
+		wantSeq, keysAfter := -1, 0
+		for m := joinedAt[q]; m < len(pk); m++ {
+			if pk[m].track == 0 && classify(pk[m].pkt).keyStart {
+				if keysAfter == 0 {
+					if p, err := ref.ParseRtp(pk[m].pkt); err == nil {
+						wantSeq = int(p.Seq)
+					}
+				}
+				keysAfter++
+				// skip the other packets of this key frame's access unit start (parameter sets + IDR all count as key starts)
+				for m+1 < len(pk) && (pk[m+1].track != 0 || classify(pk[m+1].pkt).keyStart) {
+					m++
+				}
+			}
+		}
+		gotVideo := false
+		for _, rp := range x.Packets() {
+			if rp.Channel == 0 && classify(rp.Data).video {
+				gotVideo = true
+				if p, err := ref.ParseRtp(rp.Data); err == nil && wantSeq >= 0 && keysAfter >= 2 && int(p.Seq) != wantSeq && classify(rp.Data).keyStart {
+					c.Violate("start/rtsp-joiner-late", fmt.Sprintf("an RTSP subscriber whose PLAY completed before the publisher's packet %d started with RTP sequence number %d; the first key frame that began after its PLAY starts at %d (%d key frames began after it joined) | codec=%s", joinedAt[q], p.Seq, wantSeq, keysAfter, vc), nil)
+					return
+				}
+				break
+			}
+		}
+		if !gotVideo && keysAfter >= 2 {
+			c.Violate("start/rtsp-joiner-starved", fmt.Sprintf("an RTSP subscriber whose PLAY completed before the publisher's packet %d received no video although %d key frames began after that | codec=%s", joinedAt[q], keysAfter, vc), nil)
+			return
+		}
 		for _, rp := range x.Packets() {
 			if rp.Channel != 0 {
 				continue
